@@ -89,6 +89,9 @@ func pasteProblems(o string, wantFlags string) []string {
 	for i := 0; i < len(rest); i++ {
 		c := rest[i]
 		if c == '\\' {
+			if inClass && strings.HasPrefix(rest[i:], `\t\n\f\r `) {
+				bad = append(bad, "expanded white-space class `\\t\\n\\f\\r ` left inside a character class")
+			}
 			if i+1 < len(rest) && rest[i+1] == '\\' {
 				bad = append(bad, fmt.Sprintf("literal backslash written as `\\\\` at offset %d", i))
 			}
@@ -129,9 +132,6 @@ func pasteProblems(o string, wantFlags string) []string {
 				}
 			}
 		}
-	}
-	if strings.Contains(o, `\t\n\f\r `) {
-		bad = append(bad, "expanded white-space class `\\t\\n\\f\\r ` left in the output")
 	}
 	if _, err := syntax.Parse(o, syntax.Perl); err != nil {
 		bad = append(bad, "not an RE2 expression: "+err.Error())
